@@ -86,19 +86,20 @@ Theorem C07_result_fresh : forall s0 inputs, wf_store s0 -> inputs <> [] ->
              ~ In a (deleted (snd (own_tree_mean inputs s0)))).
 Proof. exact result_fresh. Qed.
 
-(* clipping by global norm, bound c > 0; n is the global norm of x (n >= 0, n*n = sum of squares).
-   c = 0 with x = 0 is 0/0 in the code (None in the model) and lies outside "bound". *)
-Theorem C07_clip_norm_le_bound : forall (x : list Q) c n, 0 < c -> 0 <= n -> n * n == sumsq x ->
+(* clipping by global norm, bound c >= 0; n is the global norm of x (n >= 0, n*n = sum of
+   squares): the result has squared norm at most c^2, is x itself when n <= c (the zero
+   tree included), and is s*x with 0 <= s <= 1, s > 0 for c > 0, s = c/n above the bound *)
+Theorem C07_clip_norm_le_bound : forall (x : list Q) c n, 0 <= c -> 0 <= n -> n * n == sumsq x ->
   exists y, clip_model (Some n) (vlift x) (Some c) = vlift y /\ sumsq y <= c * c.
 Proof. exact clip_norm_le_bound. Qed.
 
-Theorem C07_clip_identity_below_bound : forall (x : list Q) c n, 0 < c -> 0 <= n -> n <= c ->
+Theorem C07_clip_identity_below_bound : forall (x : list Q) c n, 0 <= c -> 0 <= n -> n <= c ->
   exists y, clip_model (Some n) (vlift x) (Some c) = vlift y /\ y =v= x.
 Proof. exact clip_identity_below_bound. Qed.
 
-Theorem C07_clip_keeps_direction : forall (x : list Q) c n, 0 < c -> 0 <= n ->
-  exists y s, clip_model (Some n) (vlift x) (Some c) = vlift y /\ 0 < s <= 1 /\ y =v= vscale s x /\
-              (c < n -> s == c / n).
+Theorem C07_clip_keeps_direction : forall (x : list Q) c n, 0 <= c -> 0 <= n ->
+  exists y s, clip_model (Some n) (vlift x) (Some c) = vlift y /\ 0 <= s <= 1 /\ (0 < c -> 0 < s) /\
+              y =v= vscale s x /\ (c < n -> s == c / n).
 Proof. exact clip_keeps_direction. Qed.
 
 (* T: both translated inverse-weight guards are WMean.inv_weight (1/w if w > 0 else 0) *)
@@ -115,7 +116,7 @@ Example C07_example :
   C07_agree (KSum [[1; 2]; [3; 4]]) (mkO07 0 (Some (vlift [4; 6]))) = true /\
   C07_agree (KClip [3; 4] 1 5) (mkO07 0 (Some (vlift [(3 # 5); (4 # 5)]))) = true /\
   C07_agree (KClip [0; 0] 1 0) (mkO07 0 (Some (vlift [0; 0]))) = true /\
-  C07_agree (KClip [0; 0] 0 0) (mkO07 0 (Some [None; None])) = true /\
+  C07_agree (KClip [0; 0] 0 0) (mkO07 0 (Some (vlift [0; 0]))) = true /\
   C07_agree (KMean [([1; 2], 1)]) (mkO07 0 (Some (vlift [1; 3]))) = false /\
   fst (own_tree_sum [0%nat] (mk_store 1 [])) = Some 1%nat /\
   wf_store (mk_store 1 []).
